@@ -46,6 +46,12 @@ class C02(Prop):
                     'the child process of `reopen other` is the same binary (drv_C02 --rawdump)']
 
     def generate(self, seed, tier, scale=1):
+        cases = self._generate(seed, tier, scale)
+        if scale == 1:
+            self._routes = histlib.count_routes(self.corpus() + cases)
+        return cases
+
+    def _generate(self, seed, tier, scale=1):
         rnd = random.Random(seed * 32452843 + 2)
         n = (150 if tier == 'quick' else 3000) * scale
         cases = []
@@ -57,6 +63,13 @@ class C02(Prop):
 
     def corpus(self):
         return histlib.load_corpus(self.id)
+
+    def extra_checks(self, ctx):
+        # which further public entry points (notes/route-audit.md) this run went through, and how many script lines each got
+        routes = getattr(self, '_routes', {})
+        ctx['ev']['entry_points'] = {k: v for k, v in histlib.ROUTES.items() if any(r == k or r.startswith(k + ' ') for r in routes)}
+        ctx['ev']['lines_per_route'] = routes
+        return []
 
     def compare(self, a, b):
         return histlib.compare(a, b)
